@@ -15,6 +15,7 @@ import (
 	"fmt"
 	"os"
 	"runtime"
+	"sort"
 	"strings"
 	"sync"
 
@@ -73,3 +74,65 @@ func poisoned(rep *core.Report, what string) {
 }
 
 func sprintf(f string, a ...any) string { return fmt.Sprintf(f, a...) }
+
+// violSet collects violations found by parallel workers and reports, per key, the case with the
+// smallest enumeration index (cases are enumerated simplest-first), so that the text is deterministic.
+type violSet struct {
+	mu sync.Mutex
+	m  map[string]*violRec
+}
+
+type violRec struct {
+	idx    int64
+	desc   string
+	replay any
+	count  int64
+}
+
+func (v *violSet) add(key string, idx int64, desc string, replay any) {
+	v.mu.Lock()
+	defer v.mu.Unlock()
+	if v.m == nil {
+		v.m = map[string]*violRec{}
+	}
+	r, ok := v.m[key]
+	if !ok {
+		v.m[key] = &violRec{idx: idx, desc: desc, replay: replay, count: 1}
+		return
+	}
+	r.count++
+	if idx < r.idx {
+		r.idx, r.desc, r.replay = idx, desc, replay
+	}
+}
+
+func (v *violSet) merge(key string, idx int64, desc string, replay any, count int64) {
+	if count <= 0 {
+		return
+	}
+	v.add(key, idx, desc, replay)
+	v.mu.Lock()
+	v.m[key].count += count - 1
+	v.mu.Unlock()
+}
+
+func (v *violSet) flush(rep *core.Report) {
+	v.mu.Lock()
+	defer v.mu.Unlock()
+	var keys []string
+	for k := range v.m {
+		keys = append(keys, k)
+	}
+	sort.Slice(keys, func(a, b int) bool {
+		if v.m[keys[a]].idx != v.m[keys[b]].idx {
+			return v.m[keys[a]].idx < v.m[keys[b]].idx
+		}
+		return keys[a] < keys[b]
+	})
+	for _, k := range keys {
+		r := v.m[k]
+		for c := int64(0); c < r.count; c++ {
+			rep.Violate(k, r.desc, r.replay)
+		}
+	}
+}
